@@ -207,7 +207,8 @@ C13Scn(p) ==
 ReqShapes == {"nilAttributes", "nilRequest", "nilHttp", "nilHeaders", "emptyPath", "noHost", "noScheme", "cookieNoEquals", "cookieEmptyValue",
               "cookieManyEquals", "cookieOnlySemis", "cookieHuge", "cookieBinary", "cookieDuplicate", "cookieUpperHeader", "cookieLoneQuote",
               "cookieOtherLoneQuote", "cookieQuoted", "cookieUnbalancedQuote", "cookieEmptyQuotes", "cookieWhitespace", "cookieCommaSeparated", "pathNoSlash",
-              "pathOnlyQuery", "pathOnlyFragment", "pathHuge", "pathBinary", "pathPctBad", "hostWithPort", "hostOdd", "queryFieldSet", "methodOdd"}
+              "pathOnlyQuery", "pathOnlyFragment", "pathHuge", "pathBinary", "pathPctBad", "hostWithPort", "hostOdd", "queryFieldSet", "methodOdd",
+              "hostPortWord", "hostOpenBracket", "hostUserinfo", "hostCRLF", "hostColons", "hostEmptyPort"}
 BodyClasses == {"null", "array", "string", "number", "bool", "empty", "emptyObject", "truncated", "notjson", "wrongTypesNum", "wrongTypesNull",
                 "wrongTypesObj", "hugeNumber", "hugeInt", "negative", "floatExp", "nested", "noIdToken", "emptyIdToken", "idTokenTwoDots",
                 "idTokenJSONPayloadArray", "idTokenClaimsOddTypes", "idTokenExpHuge", "bom", "dupKeys",
